@@ -74,6 +74,16 @@ sim::Config sched_from_plan(const Json& plan)
     c.max_steps = static_cast<sim::u64>(s.num("max_steps", 400000));
     const Json& g = s.get("choices");
     for (size_t i = 0; i < g.size(); ++i) c.guided.push_back(static_cast<int>(g.at(i).as_int()));
+    // a minimised schedule: [[k, thread], ...] = at the k-th multi-choice point run that thread; everywhere else the
+    // default rule applies (keep the running thread if it can run, else the enabled thread with the lowest id)
+    const Json& sc = s.get("script");
+    for (size_t i = 0; i < sc.size(); ++i) {
+        size_t k = static_cast<size_t>(std::max<long long>(0, sc.at(i).at(0).as_int()));
+        if (k > 4000000) continue;
+        if (c.guided.size() <= k) c.guided.resize(k + 1, -1);
+        c.guided[k] = static_cast<int>(sc.at(i).at(1).as_int());
+    }
+    c.guided_default_tail = s.str("tail", "") == "default" || sc.size() > 0;
     c.record_choices = s.flag("record", false);
     return c;
 }
@@ -141,6 +151,12 @@ void emit_line(const std::string& verdict)
         o["notes"] = n;
     }
     if (cur.emit_plan || v != "ok") o["plan"] = cur.plan;
+    if (cur.plan.get("sched").flag("record", false)) {
+        // the thread chosen at every decision point with more than one enabled thread, in order
+        Json ch = Json::array();
+        for (int c : sim::recorded_choices()) ch.push(c);
+        o["recorded_choices"] = ch;
+    }
     std::string line = "RUN " + o.dump() + "\n";
     fwrite(line.data(), 1, line.size(), stdout);
     fflush(stdout);
@@ -159,12 +175,6 @@ void run_one(Scenario* sc, const Json& plan, sim::u64 run_seed, long long index,
     sim::begin_run(cfg);
     sc->run(plan);
     sim::end_run();
-    if (cfg.record_choices) {
-        Json ch = Json::array();
-        for (int c : sim::recorded_choices()) ch.push(c);
-        cur.plan["sched"]["recorded"] = ch;
-        cur.emit_plan = true;
-    }
     emit_line("ok");
 }
 
